@@ -254,3 +254,16 @@ theorem nonvacuous_hypotheses_needed :
 
 end Ytk.C08
 
+
+/-! ## gap7a: `p ≠ ""` in `apply_delete_absent` is needed -/
+namespace Ytk.C08
+
+/-- Lookup("") is nil by definition, but a Delete with the empty path removes the member whose name
+    is the empty string: "deleting an absent path is a no-op" needs `p ≠ ""` (as C03's
+    `removeAt_absent_empty_path`). -/
+theorem apply_delete_absent_empty_path :
+    (Node.cont [("", Node.null)]).Valid ∧ lookup [("", Node.null)] "" = none ∧
+    apply [("", Node.null)] [Mod.mkDel ""] = [] :=
+  ⟨Node.validB_sound _ (by decide +kernel), by decide +kernel, by decide +kernel⟩
+
+end Ytk.C08
